@@ -94,12 +94,34 @@ func ledgerStrata() []stratum {
 			c.Depth, c.Fanout, c.MaxStmts = 7, 2, 2
 			c.PSrcSeq, c.PSrcCap, c.PDstSeq, c.PDstAllot = 45, 35, 45, 35
 		}), 1},
+		{"wide40", with(func(c *gen.LCfg) {
+			// long flat lists: more than 32 funded draws in one statement, accounts repeated
+			c.Accounts = manyAccountsL(40)
+			c.Assets = []string{"USD"}
+			c.Depth, c.Fanout, c.MinStmts, c.MaxStmts = 1, 48, 1, 4
+			c.PSrcSeq, c.PDstSeq, c.PSrcCap, c.PSrcAllot, c.PDstAllot, c.PRepeat, c.PWorld, c.PAbsent, c.PSave = 70, 40, 10, 5, 10, 25, 2, 3, 20
+		}), 2},
+		{"colons", with(func(c *gen.LCfg) {
+			// segmented names whose concatenations collide: x:y + z  ==  x + y:z
+			c.Accounts = []string{"x:y", "x", "y:z", "z", "y"}
+			c.Assets = []string{"USD"}
+			c.PSrcSeq, c.PDstSeq, c.PWorld, c.Depth = 60, 60, 3, 2
+			c.DestWorld = false
+		}), 2},
 		{"names", with(func(c *gen.LCfg) {
-			c.Accounts = []string{"users:001", "a-b_c:D", "worlds", "my:world", "world:a", "kept", "0", "A", "x:y:z:w", "world_", "a"}
+			c.Accounts = []string{"users:001", "a-b_c:D", "worlds", "my:world", "world:a", "world:treasury", "World", "WORLD", "kept", "0", "A", "x:y:z:w", "world_", "a"}
 			c.Assets = []string{"USD/2", "A/1/2", "X9", "U/", "EUR/2"}
 			c.PVarAcct, c.PWorld = 35, 15
 		}), 2},
 	}
+}
+
+func manyAccountsL(n int) []string {
+	out := make([]string, n)
+	for i := range out {
+		out[i] = "acc:" + itoa(i)
+	}
+	return out
 }
 
 // forEachCase iterates the stratified random workload: total cases split by weight.
